@@ -404,6 +404,71 @@ def run_g3(ctx, jobs):
                         observed=note, note=note)
 
 
+_WORDS = ["Property", "Value", "Container", "Element", "Boundary", "Condition", "Temperature", "Pressure", "Iteration",
+          "Tolerance", "Coefficient", "Material", "Neighbor", "Quantity", "Reference", "Threshold"]
+_OVL_SIGS = ["int {a}", "long {a}", "float {a}", "double {a}", "bool {a}", "const std::string &{a}", "int {a}, int {b}",
+             "double {a}, double {b}"]
+
+
+@st.composite
+def stress_library(draw):
+    """Libraries with long (but ordinary, well below 63 characters) identifiers, large overload sets on classes
+    and at library level, and long argument lists: the shapes that make generated Fortran statements long."""
+    import yaml
+
+    def ident(nwords, lower_first=True):
+        ws = [draw(st.sampled_from(_WORDS)) for _ in range(nwords)]
+        s_ = "".join(ws)
+        return (s_[0].lower() + s_[1:]) if lower_first else s_
+    decls = []
+    used = set()
+
+    def fresh(nwords, lower_first=True):
+        for _ in range(20):
+            n = ident(nwords, lower_first)
+            if n.lower() not in used:
+                used.add(n.lower())
+                return n
+        n = ident(nwords, lower_first) + str(len(used))
+        used.add(n.lower())
+        return n
+    for _c in range(draw(st.integers(0, 2))):
+        cname = fresh(draw(st.integers(1, 2)), lower_first=False)[:16]
+        inner = [{"decl": "%s()" % cname}]
+        for _m in range(draw(st.integers(1, 2))):
+            mname = "set" + fresh(draw(st.integers(1, 2)), lower_first=False)[:21]
+            sigs = draw(st.lists(st.sampled_from(_OVL_SIGS), min_size=1, max_size=8, unique=True))
+            a, b = fresh(2), fresh(2)
+            for sg in sigs:
+                inner.append({"decl": "void %s(%s)" % (mname, sg.format(a=a, b=b))})
+        decls.append({"decl": "class " + cname, "declarations": inner})
+    for _f in range(draw(st.integers(1, 3))):
+        fname = fresh(draw(st.integers(2, 3)))[:40]
+        kind = draw(st.sampled_from(["overload", "manyargs", "defaults"]))
+        if kind == "overload":
+            a, b = fresh(2), fresh(2)
+            for sg in draw(st.lists(st.sampled_from(_OVL_SIGS), min_size=2, max_size=8, unique=True)):
+                decls.append({"decl": "void %s(%s)" % (fname, sg.format(a=a, b=b))})
+        elif kind == "manyargs":
+            ps = []
+            for _a in range(draw(st.integers(3, 8))):
+                an = fresh(draw(st.integers(1, 3)))[:30]
+                ps.append(draw(st.sampled_from(["int {n}", "double {n}", "const std::string &{n}", "bool {n}",
+                                                "double *{n} +intent(out)", "const char *{n}",
+                                                "std::string &{n} +intent(inout)"])).format(n=an))
+            decls.append({"decl": "%s %s(%s)" % (draw(st.sampled_from(["void", "int", "const std::string &", "double"])),
+                                                fname, ", ".join(ps))})
+        else:
+            an = fresh(2)
+            ps = ["double %s" % an] + ["int %s%d = %d" % (fresh(2)[:24], k, k) for k in range(draw(st.integers(1, 4)))]
+            decls.append({"decl": "int %s(%s)" % (fname, ", ".join(ps))})
+    doc = {"library": fresh(draw(st.integers(1, 2)), lower_first=False)[:20], "cxx_header": "longnames.hpp",
+           "options": {"wrap_python": False, "wrap_lua": False}, "declarations": decls}
+    if draw(st.booleans()):
+        doc["namespace"] = fresh(1).lower()
+    return doc["library"], yaml.safe_dump(doc, sort_keys=False, width=1000)
+
+
 def g3_jobs(ctx, n_corpus, n_gen, n_len):
     import random  # only to derive fixed job parameters from VERIF_SEED deterministically
     rnd = random.Random(ctx.seed)
@@ -418,6 +483,9 @@ def g3_jobs(ctx, n_corpus, n_gen, n_len):
     for i, (name, text) in enumerate(smallgen.sample_libraries(ctx.seed, n_gen)):
         lengths = [(rnd.choice([30, 40, 60, 100, 132]), rnd.choice([30, 40, 60, 100, 132])) for _ in range(n_len)]
         jobs.append(("gen", name, text, [], lengths))
+    for i, (name, text) in enumerate(smallgen.sample(stress_library(), ctx.seed + 3, n_gen)):
+        lengths = [(rnd.choice([40, 60, 72, 100, 132]), rnd.choice([40, 60, 72, 100, 130])) for _ in range(max(1, n_len // 2))]
+        jobs.append(("long", name, text, [], lengths))
     return jobs
 
 
